@@ -1,4 +1,4 @@
-\* generation, quick: literals with <= 4 nodes, nesting <= 3, three leaves
+\* generation, quick: literals with <= 4 nodes, nesting <= 3, leaves {null, 1, none_i32}
 CONSTANTS
   Dev = {}
   Modes = {"lit"}
@@ -12,7 +12,7 @@ CONSTANTS
   MaxDepth = 3
   MaxItems = 3
   MaxNodes = 4
-  Leaves = {1, 2, 7}
+  Leaves = {1, 7}
   GenSizes <- SizesNone
   NVals = 0
 SPECIFICATION Spec
